@@ -5,6 +5,7 @@ package main
 // finding for the failure to carry that finding's signature, otherwise the signature is "" (unclassified).
 
 import (
+	"fmt"
 	"strings"
 
 	"google.golang.org/protobuf/types/descriptorpb"
@@ -217,4 +218,32 @@ func chk(c *C, ok bool, what string, input any, sig string) bool {
 		sigSeen[sig]++
 	}
 	return c.Check(ok, what, input, sig)
+}
+
+// reportSnapshotDiff records a snapshot difference: one failure per finding signature when every differing line is
+// explained by a known finding, otherwise one unclassified failure.
+func reportSnapshotDiff(c *C, what string, p *descriptorpb.FileDescriptorProto, a, b string, in any) {
+	ds, same := lineDiffs(a, b)
+	if !same || len(ds) == 0 {
+		chk(c, false, what+": "+firstDiff(a, b), in, "")
+		return
+	}
+	ix := indexFDP(p)
+	bySig := map[string]lineDiff{}
+	var order []string
+	for _, d := range ds {
+		s := ix.classifyOne(d)
+		if s == "" {
+			chk(c, false, what+": "+fmt.Sprintf("[%s %s] %q VS %q", d.ctxKind, d.ctxName, d.a, d.b), in, "")
+			return
+		}
+		if _, ok := bySig[s]; !ok {
+			bySig[s] = d
+			order = append(order, s)
+		}
+	}
+	for _, s := range order {
+		d := bySig[s]
+		chk(c, false, what+": "+fmt.Sprintf("[%s %s] %q VS %q", d.ctxKind, d.ctxName, d.a, d.b), in, s)
+	}
 }
